@@ -13,3 +13,10 @@
 (define-fun keptS ((A (Array Int Str)) (off Int) (n Int) (w Str)) Bool
   (and (inS A off n w)
        (not (exists ((v Str)) (and (inS A off n v) (not (= v w)) (= (title v) w))))))
+
+; normOf(W,wo,wn, A,o,n): the strings W[wo..wo+wn) are, as a set, the normalisation of the list A[o..o+n)
+; (opaque for callers; its definition is opt-in)
+(declare-fun normOf ((Array Int Str) Int Int (Array Int Str) Int Int) Bool)
+;;@ axiom NORMOF-def optin trigger=normOf :: definition of normOf: exactly the kept words occur
+(assert (forall ((W (Array Int Str)) (wo Int) (wn Int) (A (Array Int Str)) (o Int) (n Int))
+  (! (= (normOf W wo wn A o n) (forall ((w Str)) (= (inS W wo wn w) (keptS A o n w)))) :pattern ((normOf W wo wn A o n)))))
